@@ -40,6 +40,8 @@ type interpreter struct {
 	cur                *frame // innermost running frame (for positions)
 	onces              map[*value]bool
 	syncMaps           map[*value]*omap
+	sched              *scheduler
+	thr                *gthread // running interpreted goroutine (nil: the main one)
 }
 
 type deferred struct {
@@ -326,7 +328,7 @@ func (fr *frame) runDefers() {
 // Target panics stay; anything else is an interpreter failure = engine error.
 func normalizePanic(r any) any {
 	switch p := r.(type) {
-	case targetPanic, targetRuntimeError, engineError, pathAbort, nonTermination:
+	case targetPanic, targetRuntimeError, engineError, pathAbort, nonTermination, threadKilled:
 		return p
 	case runtime.Error:
 		return engineError{fmt.Sprintf("interpreter crashed: %v\n%s", p, shortStack())}
@@ -435,17 +437,7 @@ func visitInstr(fr *frame, instr ssa.Instruction) continuation {
 
 	case *ssa.Send:
 		ch := fr.get(instr.Chan).(*chanq)
-		if ch == nil {
-			panic(engineError{"send on nil channel (would block) at " + fr.pos()})
-		}
-		if ch.closed {
-			fr.rtPanic("send on closed channel")
-		}
-		if len(ch.buf) >= ch.cap {
-			// Unbuffered / full: only environment channels with a consumer model are supported
-			panic(engineError{"channel send would block at " + fr.pos()})
-		}
-		ch.buf = append(ch.buf, fr.get(instr.X))
+		fr.i.chanSend(fr, ch, fr.get(instr.X))
 
 	case *ssa.Store:
 		store(deref(instr.Addr.Type()), fr.ptr(fr.get(instr.Addr)), fr.get(instr.Val))
@@ -485,18 +477,10 @@ func visitInstr(fr *frame, instr ssa.Instruction) continuation {
 		*defers = &deferred{fn: fn, args: args, instr: instr, tail: *defers}
 
 	case *ssa.Go:
-		// Sequential model: the goroutine runs to completion at the spawn point.
+		// Cooperative model (sched.go): the goroutine runs at the spawn point until it finishes or blocks.
 		fn, args := prepareCall(fr, &instr.Call)
 		fr.i.shared.noteGo(fr.pos())
-		func() {
-			defer func() {
-				if r := recover(); r != nil {
-					r = normalizePanic(r)
-					panic(r)
-				}
-			}()
-			call(fr.i, nil, instr.Pos(), fn, args)
-		}()
+		fr.i.spawn(fr, fn, args)
 
 	case *ssa.MakeChan:
 		fr.env[instr] = &chanq{cap: int(asInt64(fr.conc(fr.get(instr.Size), "makechan")))}
@@ -612,22 +596,24 @@ func visitInstr(fr *frame, instr ssa.Instruction) continuation {
 // closed (recv) or has room (send). Environment channels (tickers, ctx.Done)
 // are chanq values flagged env: readiness is a nondeterministic choice.
 func (fr *frame) selectInstr(instr *ssa.Select) value {
-	type cand struct{ idx int }
+	chosen := -1
+again:
 	var ready []int
+	var waits []selWait
 	for i, st := range instr.States {
 		ch, _ := fr.get(st.Chan).(*chanq)
 		if ch == nil {
 			continue
 		}
+		waits = append(waits, selWait{ch, st.Dir != types.RecvOnly})
 		if st.Dir == types.RecvOnly {
-			if len(ch.buf) > 0 || ch.closed || ch.env != nil {
+			if len(ch.buf) > 0 || ch.closed || ch.env != nil || fr.i.parkedOn(ch, true) != nil {
 				ready = append(ready, i)
 			}
-		} else if len(ch.buf) < ch.cap && !ch.closed {
+		} else if (len(ch.buf) < ch.cap+ch.recvWaiting || fr.i.parkedOn(ch, false) != nil) && !ch.closed {
 			ready = append(ready, i)
 		}
 	}
-	chosen := -1
 	var envReady []int
 	for _, i := range ready {
 		ch := fr.get(instr.States[i].Chan).(*chanq)
@@ -638,6 +624,11 @@ func (fr *frame) selectInstr(instr *ssa.Select) value {
 	switch {
 	case len(ready) == 0:
 		if instr.Blocking {
+			if fr.i.thr != nil {
+				// a goroutine in a select with no ready case parks until a peer operates on one of its channels
+				fr.i.parkSelect(fr, waits)
+				goto again
+			}
 			panic(pathAbort{"assume", "select would block forever at " + fr.pos()})
 		}
 	default:
@@ -667,7 +658,7 @@ func (fr *frame) selectInstr(instr *ssa.Select) value {
 			r = append(r, v)
 		} else if i == chosen {
 			ch := fr.get(st.Chan).(*chanq)
-			ch.buf = append(ch.buf, fr.get(st.Send))
+			fr.i.chanSend(fr, ch, fr.get(st.Send))
 		}
 	}
 	return r
@@ -808,6 +799,9 @@ func runFrame(fr *frame) {
 		r := recover()
 		r = normalizePanic(r)
 		if isEngineSignal(r) {
+			panic(r)
+		}
+		if _, ok := r.(threadKilled); ok {
 			panic(r)
 		}
 		fr.panicking = true
